@@ -30,7 +30,7 @@ RULE = (
     "quadrant of est yaw, quadrant of gt yaw, |d| bucket)"
 )
 ASSUMPTIONS = ["roll and pitch <= 0.05 rad; for tilted boxes the yaw is convention dependent to second order, tolerance 2*tilt^2", "yaw-only boxes: weight tolerance 1e-9, error tolerance 1e-9"]
-DECIDING = ["TPMetricsAph.get_value.checked", "get_heading_error.checked", "C09.negative_yaw_ego_pairs", "C09.sign_checked", "C09.frame_checked", "C09.symmetry_checked", "C09.derived_checked", "C09.result_object_checked", "C09.label_policy_checked"]
+DECIDING = ["TPMetricsAph.get_value.checked", "get_heading_error.checked", "C09.negative_yaw_ego_pairs", "C09.sign_checked", "C09.frame_checked", "C09.symmetry_checked", "C09.derived_checked", "C09.result_object_checked", "C09.label_policy_checked", "C09.ap_tp_lists_checked"]
 JOBS = {"quick": 2, "thorough": 14}
 
 
@@ -123,6 +123,35 @@ EGO = (120.0, -45.0, 1.0)
 def weight(e: Any, g: Any, ego_yaw: float = 0.0) -> float:
     tr = O.transforms_for(EGO, ego_yaw) if O.frame_of(e) == "map" else None
     return APH.get_value(DynamicObjectWithPerceptionResult(e, g, MatchingLabelPolicy.DEFAULT, transforms=tr))
+
+
+def ap_tp_list_clause(ctx: Ctx, workload: str, idx: int, r) -> None:
+    """Ap.tp_list with TPMetricsAph: the cumulative TP list adds, in confidence order, each TP's OWN heading weight -
+    also when results that are not scored for this label (paired with a ground truth of another label) rank in between."""
+    from perception_eval.common.label import AutowareLabel
+    from perception_eval.evaluation.matching import MatchingMode
+    from perception_eval.evaluation.metrics.detection.ap import Ap
+
+    n = r.randint(2, 6)
+    results, expect = [], []
+    for k in range(n):
+        ye, yg = r.uniform(-math.pi, math.pi), r.uniform(-math.pi, math.pi)
+        conf = round(0.95 - 0.1 * k + r.uniform(0, 0.05), 4)
+        foreign = r.random() < 0.35  # estimate 'car' paired with a pedestrian ground truth: not scored in the car AP
+        e = O.obj3d(3.0 + 10 * k, 1.0, 0.0, ye, lab="car", score=conf, negate_q=r.random() < 0.5)
+        g = O.obj3d(3.1 + 10 * k, 1.0, 0.0, yg, lab="pedestrian" if foreign else "car", negate_q=r.random() < 0.5)
+        results.append(DynamicObjectWithPerceptionResult(e, g, MatchingLabelPolicy.DEFAULT))
+        expect.append(None if foreign else 1.0 - G.yaw_diff_abs(ye, yg) / math.pi)
+    ctx.begin_case(workload, idx, clause="ap_tp_list", n=n)
+    ap = Ap(APH, list(results), sum(1 for w in expect if w is not None), [AutowareLabel.CAR], MatchingMode.CENTERDISTANCE, [5.0])
+    cum, c = [], 0.0
+    for w in expect:
+        c += 0.0 if w is None else w
+        cum.append(c)
+    got = [float(v) for v in ap.tp_list]
+    ctx.count("C09.ap_tp_lists_checked")
+    ok = len(got) == len(cum) and all(abs(a - b) <= 1e-9 for a, b in zip(got, cum))
+    ctx.check(ok, "C09/tp_list_not_cumulative_heading_weights_of_own_pairs", dict(n=n, foreign=[w is None for w in expect], tp_list=got, expected=cum), "TPMetricsAph.get_value")
 
 
 def quadrant(y: float) -> int:
@@ -219,6 +248,7 @@ def run(ctx: Ctx) -> None:
             yg = ye if k < 0.1 else G.wrap_pi(ye + math.pi) if k < 0.2 else G.wrap_pi(ye + r.choice([-1, 1]) * r.choice([1e-9, 1e-6, math.pi - 1e-6])) if k < 0.35 else O.rand_yaw(r)
             rp = (r.uniform(-0.05, 0.05), r.uniform(-0.05, 0.05)) if r.random() < 0.3 else (0.0, 0.0)
             one(ctx, "random", i, ye, yg, [r.uniform(-math.pi, math.pi) for _ in range(2)], roll=rp[0], pitch=rp[1])
+            ap_tp_list_clause(ctx, "random", i, r)
         # ---- derived objects: the library itself copies objects and replaces their pose (frame conversion,
         # interpolation); a heading computed earlier must not leak into the derived object
         from perception_eval.common import dataset as ds_mod
